@@ -223,6 +223,9 @@ INVALID = [
     (["query", "-i", "127.0.0.1"], "missing game"),
     (["frobnicate"], "unknown subcommand"),
 ]
+# unknown game ids of every shape: multi-byte characters at every small byte offset, empty, very long, with separators
+for gid in ("zz\u00e9", "\u00e9\u00e9", "a\u4e2d", "ab\U0001f600", "\u0438\u0433\u0440\u0430", "\u00e9", "z\u00e9", "abc\u00e9", "", " ", "CSGO", "q3a ", "x" * 300, "a/b", "\U0001f600"):
+    INVALID.append((["query", "-g", gid, "-i", "127.0.0.1"], "unknown game %r" % gid))
 for flag in ("--read-timeout", "--write-timeout", "--connect-timeout"):
     for v in ("0", "00", "-1", "1.5", "0.5", "1e-10", "0.0000000004", "1e30", "18446744073709551616", "abc", "", "nan", "inf"):
         INVALID.append((["query", "-g", "q3a", "-i", "127.0.0.1", "-p", "1", "--retries", "0", flag + "=" + v], "%s=%s" % (flag, v)))
